@@ -7,6 +7,7 @@
 #include <time.h>
 
 volatile long verif_lock_jitter_us = -1;
+pthread_mutex_t *volatile verif_nojitter_mutex = 0;      /* the harness's own log mutex is left alone */
 int __real_pthread_mutex_lock(pthread_mutex_t *m);
 
 int __wrap_pthread_mutex_lock(pthread_mutex_t *m)
@@ -14,7 +15,7 @@ int __wrap_pthread_mutex_lock(pthread_mutex_t *m)
     static __thread unsigned long rng;
     long mx = verif_lock_jitter_us;
     if (mx < 0) { const char *e = getenv("VERIF_LOCK_JITTER"); mx = e ? atol(e) : 0; verif_lock_jitter_us = mx; }
-    if (mx > 0) {
+    if (mx > 0 && m != verif_nojitter_mutex) {
         if (!rng) rng = (unsigned long) (size_t) &rng * 2654435761UL + 12345UL;
         rng = rng * 6364136223846793005UL + 1442695040888963407UL;
         if ((rng >> 40) & 1) {
